@@ -498,11 +498,12 @@ class CodePanic(Inconclusive):
 
 def code_panic(stderr):
     """'panic: ... at <frames>' if stderr is a Go panic whose panicking goroutine has a frame in the tree under test"""
-    if not stderr or "panic:" not in stderr:
+    # (a runaway recursion ends as "fatal error: stack overflow": same treatment as a panic)
+    if not stderr or ("panic:" not in stderr and "fatal error: stack overflow" not in stderr):
         return None
     lines = stderr.splitlines()
     try:
-        k = next(i for i, l in enumerate(lines) if l.startswith("panic:"))
+        k = next(i for i, l in enumerate(lines) if l.startswith("panic:") or l.startswith("fatal error: stack overflow"))
         g = next(i for i in range(k, len(lines)) if lines[i].startswith("goroutine ") and lines[i].rstrip().endswith(":"))
     except StopIteration:
         return None
